@@ -242,6 +242,8 @@ func (g *goTranslator) call(n *ast.CallExpr, old bool, bound map[string]goVar) g
 		return goVal{src: fmt.Sprintf("binary.BigEndian.Uint%s([]byte(%s)[%s:])", bits, tr(0).src, tr(1).src), typ: t}
 	case "bit":
 		return goVal{src: fmt.Sprintf("(((%s) >> %s) & 1 == 1)", tr(0).src, tr(1).src), typ: boolT}
+	case "mention":
+		return goVal{src: "true", typ: boolT}
 	case "deepeq":
 		if len(n.Args) != 2 {
 			g.failf("deepeq with skipped fields has no run-time counterpart")
